@@ -57,6 +57,12 @@ func (C09) Gen(rt *rapid.T, tier string) any {
 		// a fault in one scan root must not reach into the other (they share the walk context)
 		cfg.Roots = append(cfg.Roots, RootSpec{Tree: genTree(rt, TreeOpts{MaxNodes: 6, MaxDepth: 2, Symlinks: true, Gitignore: true, MaxSize: 40}, "t2")})
 	}
+	if rapid.Bool().Draw(rt, "realroots") {
+		// roots with a path of their own (a real directory as opposed to a virtual file system)
+		for i := range cfg.Roots {
+			cfg.Roots[i].Path = fmt.Sprintf("/simroot%d", i)
+		}
+	}
 	return cfg
 }
 
@@ -360,6 +366,17 @@ func checkFaulted(cfg *Config, plan []Fault, h0 *Obs, obs *Obs, out *sim.Outcome
 	}
 	if fired == 0 {
 		return
+	}
+	// the size limit is a hard bound, faults or not: a regular file larger than the limit is never
+	// handed to an extractor (a failing size check must fail closed)
+	if cfg.MaxFileSize > 0 {
+		for _, e := range obs.Extracts {
+			if t := treeOf(cfg, e.Root); t != nil {
+				if n := t.Lookup(e.Path); n != nil && n.Kind == "file" && len(n.Content) > cfg.MaxFileSize {
+					out.Violate("oversize-extract", key("oversize-extract"), "%s (%d bytes) was handed to %s although MaxFileSize=%d; %s", labelled(e.Root, e.Path), len(n.Content), e.Ext, cfg.MaxFileSize, ctx)
+				}
+			}
+		}
 	}
 	fa := analyse(cfg, obs)
 	fatalOnRequest := cfg.ErrorOnFSErrors && fa.Traversal
